@@ -289,6 +289,7 @@ DEFAULTS = dict(
     n_inplay=(0, 8),
     p_inplay=0.5,
     p_suspend_reopen=0.3,  # per market, a SUSPENDED -> OPEN cycle with version change
+    p_no_bsp=0.0,  # at the off a runner gets no actual starting price (nothing was offered at SP on it)
     p_keep_books=0.0,  # at a suspension (also the one at the off) the ladders are left as they are and not sent again on re-opening
     p_removal=0.0,
     p_bsp=0.8,
@@ -466,6 +467,8 @@ class Director:
             extra["bspReconciled"] = True
             for key in self.active_keys():
                 sp = round(L.CLASSIC[self.mid[key]] * rng.choice((0.8, 1.0, 1.0, 1.3)) + rng.random() * 0.01, 4)
+                if self.p["p_no_bsp"] and rng.random() < self.p["p_no_bsp"]:
+                    continue
                 runner_md[key] = {"bsp": max(1.01, sp)}
         ch = {"status": "SUSPENDED", "version": self.mf.md["version"] + rng.randint(1, 50)}
         ch.update(extra)
